@@ -278,7 +278,7 @@ pub fn program_set(set: &str) -> Vec<Program<WRandFam>> {
     ];
     let mut out = Vec::new();
     for idx in nondecreasing_tuples(bodies.len(), 2) {
-        let mains: Vec<Vec<WOp>> = if thorough { vec![vec![], vec![StdRange(2)], vec![Load], vec![Random, Load]] } else { vec![vec![], vec![StdRange(2), Load]] };
+        let mains: Vec<Vec<WOp>> = if thorough { vec![vec![], vec![StdRange(2)], vec![Load], vec![Random, Load]] } else { vec![vec![StdRange(2), Load]] };
         for ms in mains {
             out.push(Program::fork_join((), ms, idx.iter().map(|&i| bodies[i].clone()).collect()));
         }
